@@ -136,7 +136,8 @@ TNullMake ==
   /\ IsEvent("nullmake")
   /\ LET ev == Trace[l] got == PosOfJson(ev.pos) want == NullMake(pos) IN
        /\ Expect(~InCheck(pos.bd, pos.stm), ev, "INFRA/null-move-in-check", "", [fen |-> FenOf(pos)])
-       /\ Expect(got = want, ev, "C03/null-successor", "", [want |-> FenOf(want), got |-> FenOf(got)])
+       \* (not part of a listed property; reported as a note) a null move flips the side and clears the target
+       /\ Expect([got EXCEPT !.hm = 0] = [want EXCEPT !.hm = 0], ev, "X/null-successor", "", [want |-> FenOf(want), got |-> FenOf(got)])
        /\ MakeNull(want, SnapOf(ev), Entry(want, ev))
        /\ ObsHash(ev, want, hist')
   /\ UNCHANGED rootBad
